@@ -354,7 +354,23 @@ pub struct Case {
 pub fn gen_case(t: &mut Tape) -> Case {
     let text = gen_accepted(t, Avoid::ALL, 5).text();
     let n = 1 + t.below(4);
-    let edits = (0..n).map(|_| gen_edit(t)).collect();
+    let mut edits: Vec<Edit> = (0..n).map(|_| gen_edit(t)).collect();
+    // break edits: in two cases out of five a break end is moved exactly onto (or 1/8 ms beside) an object's start time
+    let starts: Vec<f64> = rosu_map::from_str::<Beatmap>(&text).map(|m| m.hit_objects.iter().map(|h| h.start_time).collect()).unwrap_or_default();
+    for e in edits.iter_mut() {
+        if let Edit::Breaks(v) = e {
+            if !v.is_empty() && !starts.is_empty() && t.chance(40) {
+                let i = t.below(v.len());
+                let target = starts[t.below(starts.len())] + *t.pick(&[0.0, 0.0, 0.125, -0.125]);
+                if target.is_finite() && target.abs() < 2.0e9 {
+                    v[i].1 = target;
+                    if v[i].0 > target {
+                        v[i].0 = target - 10.0;
+                    }
+                }
+            }
+        }
+    }
     Case { text, edits, tape: t.all_bytes().to_vec() }
 }
 
@@ -394,6 +410,31 @@ pub fn evaluate(c: &Case) -> Result<bool, String> {
     let mode_edit = names.contains(&"mode") && edited.mode != m1.mode;
     let velocity_edit = names.contains(&"slider_multiplier");
     if names.contains(&"breaks") {
+        // a break edit may change new-combo flags, but only as the rule says: going through the objects in time
+        // order, the first circle / slider / spinner reached after one or more breaks have ended strictly before
+        // it (`end < start`) is forced to start a combo (a hold in that place uses the force up); explicit flags stay
+        if r.hit_objects.len() == r0.hit_objects.len() {
+            let flag = |h: &rosu_map::section::hit_objects::HitObject| match &h.kind {
+                HitObjectKind::Circle(c) => Some(c.new_combo),
+                HitObjectKind::Slider(c) => Some(c.new_combo),
+                HitObjectKind::Spinner(c) => Some(c.new_combo),
+                HitObjectKind::Hold(_) => None,
+            };
+            let mut cur = 0;
+            for (i, (a, b)) in r0.hit_objects.iter().zip(&r.hit_objects).enumerate() {
+                let mut forced = false;
+                while cur < edited.breaks.len() && edited.breaks[cur].end_time < b.start_time {
+                    forced = true;
+                    cur += 1;
+                }
+                if let (Some(f0), Some(f)) = (flag(a), flag(b)) {
+                    // (r0's flags are M1's: explicit ones plus those its own breaks had forced before the edit)
+                    if f != (f0 || forced) {
+                        return Err(format!("after the break edit hit object {i} (start {}) has new_combo = {f}; it had {f0} before and the edited breaks {} force it (breaks {:?})", b.start_time, if forced { "do" } else { "do not" }, edited.breaks));
+                    }
+                }
+            }
+        }
         strip_new_combo(&mut r0);
         strip_new_combo(&mut r);
     }
@@ -419,7 +460,7 @@ pub fn evaluate(c: &Case) -> Result<bool, String> {
 }
 
 pub fn run(ctx: &mut Ctx) {
-    ctx.rule = "cases are (decoded map from the accepted-mode generator, 1..4 edits). Edits set a field to a value the format can represent: metadata text = any string without line breaks / surrounding whitespace (pool rich in ':', '//', ',', quotes, brackets, header-like and version-like text, non-ASCII, plus random scalars); file names (no backslash, '//', for the background no comma / edge quotes); ints within +-(2^31-1) (ids and countdown offset > 0); integral lead-in; finite f32/f64 within the limits (slider multiplier in [0.4,3.6], tick rate in [0.5,8]); flags, mode, countdown; bookmarks; combo / named colours; breaks with start <= end. Oracle: R=decode(encode(edit(M1))) shows exactly the edited value for every edited field, and every other C02-compared field equals R0=decode(encode(M1)) (dependents exempted by a fixed table: mode -> scroll speed / velocity clamp / curves / default banks / special style; slider multiplier -> velocity and therefore end times; breaks -> new-combo flags). Non-trivial = at least one edit changes a value; distinct by hash(text, edits).".into();
+    ctx.rule = "cases are (decoded map from the accepted-mode generator, 1..4 edits). Edits set a field to a value the format can represent: metadata text = any string without line breaks / surrounding whitespace (pool rich in ':', '//', ',', quotes, brackets, header-like and version-like text, non-ASCII, plus random scalars); file names (no backslash, '//', for the background no comma / edge quotes); ints within +-(2^31-1) (ids and countdown offset > 0); integral lead-in; finite f32/f64 within the limits (slider multiplier in [0.4,3.6], tick rate in [0.5,8]); flags, mode, countdown; bookmarks; combo / named colours; breaks with start <= end. Oracle: R=decode(encode(edit(M1))) shows exactly the edited value for every edited field, and every other C02-compared field equals R0=decode(encode(M1)) (dependents exempted by a fixed table: mode -> scroll speed / velocity clamp / curves / default banks / special style; slider multiplier -> velocity and therefore end times; breaks -> new-combo flags, which must follow the break rule exactly: forced on the first object after breaks that ended strictly before it). Non-trivial = at least one edit changes a value; distinct by hash(text, edits).".into();
     crate::props::replay_regress_generic(ctx, replay);
     let cases = ctx.tier.pick(600_000u64, 5_000_000u64);
     ctx.pbt("c03-random", cases, 2500, |t, st| {
